@@ -776,3 +776,44 @@ Proof.
   split; [|vm_compute; split; reflexivity].
   constructor; [constructor; [reflexivity|constructor]|]. constructor; [constructor; [reflexivity|constructor]|constructor].
 Qed.
+
+(* ---- round 5 (seeded change C10-e): text handed to package fmt as a FORMAT ------------------------------------------------------
+   model/GoFmt.v = fmt's doPrintf over string operands (formats without flags, indexes, width, precision; anything else: None),
+   tied to the real fmt.Sprintf on generated formats by checks/c10.py. *)
+From Qryn Require model.GoFmt proofs.GoFmtProofs.
+
+(* what the site census takes a constant format for (texts without a percent sign, %s between them, one operand per verb) is what
+   Sprintf prints: the concatenation *)
+Theorem constant_format_is_concatenation : forall texts args,
+  forallb GoFmt.pct_free texts = true -> S (List.length args) = List.length texts ->
+  GoFmt.fmt_go (GoFmt.mkformat texts) args = Some (GoFmt.interleave texts args).
+Proof. exact GoFmtProofs.fmt_constant_format. Qed.
+Print Assumptions constant_format_is_concatenation.
+
+Theorem verb_free_format_is_printed_as_it_stands : forall t, GoFmt.pct_free t = true -> GoFmt.fmt_go t [] = Some t.
+Proof. exact GoFmtProofs.fmt_verb_free_text. Qed.
+Print Assumptions verb_free_format_is_printed_as_it_stands.
+
+(* the JOIN clause of Select.String printed with the RENDERED sub-select inside the format (seeded C10-e) is the clause the code
+   writes today only while the rendered text holds no percent sign ... *)
+Theorem join_clause_as_format_is_the_text_only_without_percent : forall tp r, GoFmt.pct_free tp = true -> GoFmt.pct_free r = true ->
+  GoFmtProofs.join_as_format tp r = Some (GoFmtProofs.join_as_text tp r).
+Proof. exact GoFmtProofs.join_format_safe_only_without_percent. Qed.
+Print Assumptions join_clause_as_format_is_the_text_only_without_percent.
+
+(* ... and a request string breaks it: for the value %' the escaper writes '%\'' (it copies the percent sign), fmt consumes the
+   backslash as a verb, the quote closes the literal and the statement no longer lexes, while the clause written as text does.
+   Hence the census rule "a non-constant format is of unknown provenance whatever it is made of" *)
+Theorem rendered_text_as_format_refuted :
+  exists v out,
+    GoFmtProofs.join_as_format "INNER ANY" ("(SELECT 1 WHERE val == " ++ quote_seq v ++ ")") = Some out /\
+    has_err (lex out) = true /\
+    has_err (lex (GoFmtProofs.join_as_text "INNER ANY" ("(SELECT 1 WHERE val == " ++ quote_seq v ++ ")"))) = false.
+Proof. exact GoFmtProofs.rendered_text_as_format_refuted. Qed.
+Print Assumptions rendered_text_as_format_refuted.
+
+(* hypotheses met: a real constant format of the census (match(%s, %s)) and the two ways a verb changes a VALUE without breaking the lexing *)
+Example constant_format_example :
+  GoFmt.fmt_go (GoFmt.mkformat ["match("; ", "; ")"]) ["val"; "'x'"] = Some "match(val, 'x')" /\
+  GoFmtProofs.join_as_format "INNER ANY" (quote_seq "50%%off") = Some (" INNER ANY JOIN " ++ quote_seq "50%off").
+Proof. split; [reflexivity | exact (proj1 GoFmtProofs.rendered_text_as_format_changes_values)]. Qed.
